@@ -144,6 +144,28 @@ def bounded_chain_api(p):
   return S.result()
 
 
+def bounded_reserved_names(p):
+  """A column that is literally called 'SELF' or 'SKIP' is an ordinary column: only Key.SELF / Key.SKIP are reserved."""
+  S = Search(p, dict(columns="'SELF', 'SKIP' next to ordinary ones, also nested", operators='select / apply / assign / filter'))
+  T = transform.TreeTransform
+  for name in ('SELF', 'SKIP'):
+    recs = lambda: [{name: 1, 'a': 10, 'sub': {name: 5}}, {name: 0, 'a': 20, 'sub': {name: 6}}]
+    cases = [
+        (f'select({name!r})', lambda: T().select(name), lambda r: {name: r[name]}),
+        (f'apply(neg, {name!r})', lambda: T().apply(fn=f_neg, input_keys=name), lambda r: -r[name]),
+        (f'assign(x = neg({name!r}))', lambda: T().assign('x', fn=f_neg, input_keys=name), lambda r: dict(r, x=-r[name])),
+        (f'filter(truthy({name!r}))', lambda: T().filter(fn=bool, input_keys=name), lambda r: r if r[name] else None),
+        (f'select(sub.{name})', lambda: T().select(tree.Key.new('sub', name)), lambda r: {'sub': {name: r['sub'][name]}}),
+        (f'assign({name!r} = neg(a))', lambda: T().assign(name, fn=f_neg, input_keys='a'), lambda r: dict(r, **{name: -r['a']})),
+    ]
+    for label, build, ref in cases:
+      got = expect(lambda: list(build().make().iterate(recs())))
+      exp = [o for o in (ref(r) for r in recs()) if o is not None]
+      if not S.check(got == ('ok', exp), dict(case=label), f'{label}: {got}; reference {exp}', cls=label):
+        return S.result()
+  return S.result()
+
+
 def bounded_sink_on_failure(p):
   """A fault mid-stream: the error reaches the caller and every sink is still closed exactly once."""
   S = Search(p, dict(failing_record='each of 4', sink_position='before / after the failing operator', named_stages='yes/no'))
